@@ -54,7 +54,7 @@ def encInt (k : IntK) (i : Int) : Bytes :=
 /-- `from_le_bytes` for kind `k` -/
 def decInt (k : IntK) (bs : Bytes) : Int :=
   let n := ofLe bs
-  if k.signed && decide (256 ^ k.width / 2 ≤ n) then (n : Int) - (256 ^ k.width : Int) else (n : Int)
+  if k.signed = true ∧ 256 ^ k.width / 2 ≤ n then (n : Int) - (256 ^ k.width : Int) else (n : Int)
 
 /-- no two elements have equal keys -/
 def distinctKeys (key : Val → Val) : List Val → Bool
